@@ -93,6 +93,8 @@ class Prop:
     search_budget_factor: int = 10
     case_timeout: int = 120                           # seconds per case on the implementation side
     known_diffs_binding: bool = False                 # model/impl differences stay binding inside an open finding
+    unclaimed_diffs_binding: bool = False             # the model mirrors the code outside the claim domain too: `claimed`
+                                                      # then only silences the ORACLE, the correspondence stays binding
     driver: str = "ofdrv_per"               # lean_exe target serving this property's protocol lines
 
 
@@ -457,7 +459,7 @@ def run_check(modname: str, tier: str, seed: int, replay: Optional[str] = None) 
             if in_known is not None and not prop.known_diffs_binding:
                 continue               # inside an open finding only the oracle speaks (the model states the
                                        # intended behaviour there); a model that mirrors the code stays binding
-            (diffs if o.case.claimed else unclaimed).append(o)
+            (diffs if (o.case.claimed or prop.unclaimed_diffs_binding) else unclaimed).append(o)
     corr_ok = drv_ok and not diffs
 
     def case_json(o: Outcome) -> dict:
@@ -571,6 +573,8 @@ def run_check(modname: str, tier: str, seed: int, replay: Optional[str] = None) 
             "samples": samples, "input_histogram": hist, "impl_outcomes": outcome_hist,
             "correspondence": {"lines_compared": len(outs) if drv_ok else 0, "claimed_diffs": len(diffs),
                                "unclaimed_diffs": len(unclaimed),
+                               "cases_outside_claim_domain": sum(1 for o in outs if not o.case.claimed),
+                               "binding_outside_claim_domain": bool(prop.unclaimed_diffs_binding),
                                "unclaimed_examples": [{"line": o.case.line[:200], "impl": o.impl[:120], "model": o.model[:120]} for o in unclaimed[:3]]},
             "known_findings_seen": {k: len(v) for k, v in known_seen.items()},
             "exhaustive": bool(tier == "thorough" and prop.enumerate_thorough is not None),
